@@ -390,9 +390,6 @@ func (g *gen) op() *Op {
 			v = r.Intn(nv)
 		}
 		vm := e.views[v]
-		if e.bufs[vm.buf].ab.Detached() {
-			return nil // open finding C17-N10: Export() of a view on a detached buffer (corpus only)
-		}
 		o := &Op{O: "goexport", V: v, K: vm.kind, Via: r.Intn(2)}
 		if r.Chance(55) {
 			o.O = "goexportwrite"
